@@ -27,6 +27,8 @@ pub struct TreeCfg {
     /// an "out" area next to the roots that links may point into
     pub outside: bool,
     pub fifo: bool,
+    /// names may contain one byte that is not valid UTF-8 (hostile style only)
+    pub raw_byte: Option<u8>,
 }
 
 const HOSTILE_PIECES: &[&str] = &[
@@ -34,7 +36,7 @@ const HOSTILE_PIECES: &[&str] = &[
     "\u{e9}", "\u{1F600}", "a", "b", "Z", "0", ".", "..x", "=", "%", "%p", "\\n", "`", "&", "|", ">", "#", "~",
 ];
 
-pub fn gen_name(rng: &mut Rng, style: NameStyle, taken: &BTreeSet<String>) -> String {
+pub fn gen_name(rng: &mut Rng, style: NameStyle, raw: bool, taken: &BTreeSet<String>) -> String {
     for _ in 0..50 {
         let name = match style {
             NameStyle::Simple => {
@@ -63,7 +65,11 @@ pub fn gen_name(rng: &mut Rng, style: NameStyle, taken: &BTreeSet<String>) -> St
                 let mut s = String::new();
                 let n = rng.small(1, 5);
                 for _ in 0..n {
-                    s.push_str(*rng.pick(HOSTILE_PIECES));
+                    if raw && rng.chance(1, 4) {
+                        s.push(crate::tree::RAW_SENTINEL);
+                    } else {
+                        s.push_str(*rng.pick(HOSTILE_PIECES));
+                    }
                 }
                 if rng.chance(1, 40) {
                     // a long name (up to NAME_MAX bytes)
@@ -108,6 +114,7 @@ pub fn relative_target(from_dir: &str, to: &str) -> String {
 
 pub fn gen_tree(rng: &mut Rng, cfg: &TreeCfg) -> TreeSpec {
     let mut spec = TreeSpec::default();
+    spec.raw_byte = cfg.raw_byte;
     let mut dirs: Vec<String> = vec![];
     let mut files: Vec<String> = vec![];
     let mut links: Vec<String> = vec![];
@@ -139,7 +146,7 @@ pub fn gen_tree(rng: &mut Rng, cfg: &TreeCfg) -> TreeSpec {
         let parent = rng.pick(&dirs).clone();
         let pdepth = depth_of(&parent) + 1;
         let taken = children.entry(parent.clone()).or_default();
-        let name = gen_name(rng, cfg.names, taken);
+        let name = gen_name(rng, cfg.names, cfg.raw_byte.is_some(), taken);
         taken.insert(name.clone());
         let path = format!("{parent}/{name}");
         if path.len() > 3500 {
